@@ -27,7 +27,7 @@ var suites = map[string]func(tier string) []*families.Case{
 	"f19":  func(tier string) []*families.Case { return families.F19(2, []string{"", "s"}) },
 	"f4l":  func(tier string) []*families.Case { return families.F4L(2, []string{"", "s"}) },
 	"f2d2": func(tier string) []*families.Case { return families.F2D(2, 15, 4, []string{"", "s", "is", "ns"}) },
-	"f16":  func(tier string) []*families.Case { return families.F16(4, []string{"", "i", "is"}) },
+	"f16":  func(tier string) []*families.Case { return families.F16(4, []string{"", "i", "is", "n", "ni"}) },
 	"nc":   func(tier string) []*families.Case { return families.NestedCaptures(5, []string{"", "n", "nis"}) },
 	"f7":   func(tier string) []*families.Case { return families.F7(3, 3, []string{"", "is"}) },
 }
@@ -97,7 +97,7 @@ func behSuite(tier string) []*families.Case {
 		cs = append(cs, families.F14(4, spec.AllVariants)...)
 		cs = append(cs, families.F15(3, spec.AllVariants)...)
 		cs = append(cs, families.NestedCaptures(5, spec.AllVariants)...)
-		cs = append(cs, families.F16(5, spec.ASTVariants)...)
+		cs = append(cs, families.F16(5, spec.AllVariants)...)
 		cs = append(cs, families.F4L(2, []string{"", "s", "n", "nis"})...)
 		cs = append(cs, families.F17(5, spec.AllVariants)...)
 		cs = append(cs, families.F19(2, []string{"", "s", "is", "ns"})...)
@@ -127,7 +127,7 @@ func behSuite(tier string) []*families.Case {
 		cs = append(cs, families.F14(4, []string{"", "is", "n"})...)
 		cs = append(cs, families.F15(3, []string{"", "s"})...)
 		cs = append(cs, families.NestedCaptures(5, []string{"", "n", "nis"})...)
-		cs = append(cs, families.F16(4, []string{"", "i", "is"})...)
+		cs = append(cs, families.F16(4, []string{"", "i", "is", "n", "ni"})...)
 		cs = append(cs, families.F4L(2, []string{"", "s"})...)
 		cs = append(cs, families.F17(4, []string{"", "is", "n", "nis"})...)
 		cs = append(cs, families.F19(2, []string{"", "s"})...)
